@@ -30,4 +30,8 @@ def run(run_, tier):
     c11.run_obligations(run_, keep=lambda oid: "SoftAbs" in oid)
     # a memoised value or derivative method must declare every state variable it reads (else the value is stale after a position-only update)
     c09.static_layers(FilterRun(run_, lambda oid: "reads-within-declared-dependencies" in oid), "C09")  # "C09" selects the read-set layer
+    # ... and the cache protocol itself (a value memoised under the wrong key, or kept after a pickle round trip, is a wrong value of the method)
+    from . import c10, premises
+    c10.log_space_obligations(run_)  # h1 of the Riemannian / constrained systems is finite wherever 1/2 log|det| is: no intermediate determinant
+    premises.cache_protocol(run_)
     run_.notes.append(f"{n} system configurations")
